@@ -41,7 +41,7 @@ RULE = ('random schemas (1-4 classes, 0-3 associations with 0-3 key attributes o
         'attribute, identifiers, classes inferred from INSERTs) populated from '
         'a pool of <= 4 values per type; per population: ALL permutations of the statements when there are <= 7 '
         '(quick: <= 6, and <= 7 on a sample), 50 random permutations otherwise; random partitions into 1-4 input '
-        'calls / files / directory chain / wide directory / zip members / one file through the bridgepoint loader, each part '
+        'calls / files / directory chain / wide directory (directory and file names with a leading dot, blanks and the glob characters [ ] * ?) / zip members / one file through the bridgepoint loader, each part '
         'ending with a newline, right after its last `;`, with a `-- comment` that no newline ends, or with a bare `--`; '
         'API and clone construction; rejected inputs (duplicate class, a class declaring an attribute name twice, unknown class or key in an association or '
         'identifier, key lists of different length, named INSERT with unequal lengths). Non-trivial = some association has both a linked and an '
@@ -301,6 +301,10 @@ def _part_text(p, n, v):
     return text
 
 
+_ROOT_NAMES = ['root', 'types[v2]', 'my model', 'a*b', 'what?', '.hidden', 'r]x[']
+_SUB_NAMES = ['sub', '.shared', 'pk[1]', 'sub dir', 'x*', 'q?', '.git']
+
+
 def _load(stmts, v, mine, cache=None):
     """-> (metamodel, order in which the loader saw the statements); may raise a documented exception"""
     route = v['route']
@@ -333,18 +337,24 @@ def _load(stmts, v, mine, cache=None):
                 f.write(''.join(G.text_of(p) for p in parts))
             l.filename_input(fn)
         elif route in ('bp-dir', 'bp-dirwide'):
-            cur = os.path.join(d, 'root')
+            # directory and file names a model tree may legitimately have: a leading dot (hidden package directories,
+            # dot-files), blanks, and the characters [ ] * ? that a glob pattern would read as wildcards; chosen from
+            # the variant, so that a replay builds the same tree
+            pick = sum(v['order'][:2]) + len(v['parts'])
+            root = os.path.join(d, _ROOT_NAMES[pick % len(_ROOT_NAMES)])
+            cur = root
             os.mkdir(cur)
             with open(os.path.join(cur, 'notes.txt'), 'w') as f:
                 f.write(decoy)
             for n, p in enumerate(parts):
-                with open(os.path.join(cur, 'p%d.xtuml' % n), 'w') as f:
+                dot = '.' if (pick + n) % 4 == 1 else ''
+                with open(os.path.join(cur, '%sp%d.xtuml' % (dot, n)), 'w') as f:
                     f.write(_part_text(p, n, v))
                 if route == 'bp-dir':
                     # one file per directory level: os.walk visits a directory's files before its sub-directories
-                    cur = os.path.join(cur, 'sub')
+                    cur = os.path.join(cur, _SUB_NAMES[(pick + n) % len(_SUB_NAMES)])
                     os.mkdir(cur)
-            l.filename_input(os.path.join(d, 'root'))
+            l.filename_input(root)
         elif route == 'bp-zip':
             fn = os.path.join(d, 'model.zip')
             with zipfile.ZipFile(fn, 'w') as z:
@@ -359,7 +369,7 @@ def _load(stmts, v, mine, cache=None):
             # the directory walk order of sibling files is the operating system's: read it off the loader
             seen = []
             for st in l.statements:
-                fn = os.path.basename(st.filename or '')
+                fn = os.path.basename(st.filename or '').lstrip('.')
                 if fn.startswith('p') and fn.endswith('.xtuml') and os.path.dirname(st.filename).startswith(d):
                     k = int(fn[1:-6])
                     if k not in seen:
